@@ -339,3 +339,20 @@ def replay(ctx, payload):
     if len(dumps) >= 2 and common.canon(outs[0][dumps[-1]]) != common.canon(outs[0][dumps[-2]]):
         return True
     return False
+
+
+def run_witness(ctx, finding):
+    if finding["id"] != "J8-sofa-array-through-api":
+        return False
+    import warnings
+    from cassis import Cas, TypeSystem
+    with warnings.catch_warnings():
+        warnings.simplefilter("ignore")
+        try:
+            ts = TypeSystem(); H = ts.create_type("x.Holder", "uima.cas.TOP"); ts.create_feature(H, "arr", "uima.cas.ByteArray")
+            BA = ts.get_type("uima.cas.ByteArray")
+            cas = Cas(ts); arr = BA(elements=b"abc"); cas.sofa_array = arr; cas.sofa_mime = "x/y"; cas.add(H(arr=arr))
+            a, b, c = cas.to_json(), cas.to_json(), cas.to_json()
+            return a != b and b == c and '"%ID": null' in a
+        except Exception:
+            return False
